@@ -102,7 +102,17 @@ pub fn run_sequence(ctx: &mut Ctx, bytes: &[u8]) -> Result<bool, Failure> {
         uris.push(uri_of(&p));
         states.push(DocState::NotOpen);
     }
-    let weird = ["untitled:Untitled-1".to_string(), "http://example.com/x.gleam".to_string(), uri_of(&wd.path.join("src/never_existed.gleam")), "file:///nonexistent-dir-zq/x.gleam".to_string()];
+    let weird = [
+        "untitled:Untitled-1".to_string(),
+        "http://example.com/x.gleam".to_string(),
+        uri_of(&wd.path.join("src/never_existed.gleam")),
+        "file:///nonexistent-dir-zq/x.gleam".to_string(),
+        // `file:` with a remote host: no local path either
+        "file://fileserver/share/proj/src/b.gleam".to_string(),
+        // not a `file:` URI, but its path exists on disk
+        format!("untitled:{}", wd.path.join("gleam.toml").display()),
+        format!("untitled:{}", wd.path.join("src/d0.gleam").display()),
+    ];
     let mut lsp = Lsp::spawn(&wd.path, &[]).map_err(|e| Failure::new(format!("cannot start glas: {e}"), case.clone()).sig("kind", "harness"))?;
     if !lsp.initialize(&wd.path) {
         lsp.kill();
@@ -497,7 +507,7 @@ impl Property for C15 {
         "C15"
     }
     fn rule(&self) -> String {
-        "cases: proptest-generated message sequences (5-40 messages after initialisation) against the REAL glas binary over stdio in a scratch project: didOpen (incl. duplicates), didChange with 1-3 changes whose positions are valid or invalid by rule (line beyond the end, column beyond line end, inside a surrogate pair, start > end, u32::MAX, huge column; full-text changes mixed in), didClose, didSave, didChangeWatchedFiles for files that never existed and for untitled:/http: URIs, opens/changes of non-file URIs, and all 11 request kinds at valid/invalid positions on known, unknown and non-file URIs. Oracle: the process is alive after the sequence; every request id gets exactly one response (result or error); per document, the server's text (observed through glas/syntaxTree) is one of the texts a model of the document store allows - the editor's text when every change was valid; after an unappliable change either 'forgotten' (error answer) or the text with that change dropped (or, for a too-large column only, clamped to the line end as LSP 3.17 sanctions) - never the change applied somewhere else; shutdown/exit end the process with status 0. evaluations = messages sent. Non-trivial = sequence with >= 1 invalid-parameter message followed by >= 1 request; distinct by stream hash.".into()
+        "cases: proptest-generated message sequences (5-40 messages after initialisation) against the REAL glas binary over stdio in a scratch project: didOpen (incl. duplicates), didChange with 1-3 changes whose positions are valid or invalid by rule (line beyond the end, column beyond line end, inside a surrogate pair, start > end, u32::MAX, huge column; full-text changes mixed in), didClose, didSave, didChangeWatchedFiles for files that never existed and for untitled:/http: URIs (also `file://host/...` and non-file URIs whose path exists on disk), opens/changes of non-file URIs, and all 11 request kinds at valid/invalid positions on known, unknown and non-file URIs. Oracle: the process is alive after the sequence; every request id gets exactly one response (result or error); per document, the server's text (observed through glas/syntaxTree) is one of the texts a model of the document store allows - the editor's text when every change was valid; after an unappliable change either 'forgotten' (error answer) or the text with that change dropped (or, for a too-large column only, clamped to the line end as LSP 3.17 sanctions) - never the change applied somewhere else; shutdown/exit end the process with status 0. evaluations = messages sent. Non-trivial = sequence with >= 1 invalid-parameter message followed by >= 1 request; distinct by stream hash.".into()
     }
     fn assumptions(&self) -> Vec<String> {
         vec![
